@@ -491,7 +491,12 @@ class Parser:
     def _concat_strings_in_constant(self, parts: list[TokenInfo]) -> ast.Constant:
         s = ast.literal_eval(parts[0].string)
         for ss in parts[1:]:
-            s += ast.literal_eval(ss.string)
+            part = ast.literal_eval(ss.string)
+            if isinstance(part, bytes) != isinstance(s, bytes):
+                self.raise_syntax_error_known_range(
+                    "cannot mix bytes and nonbytes literals", parts[0], parts[-1]
+                )
+            s += part
         args = {
             "value": s,
             "lineno": parts[0].start[0],
